@@ -350,7 +350,7 @@ def run(ctx):
     for c in concretisations(thorough):
         ad = ClosAdapter(L, c, info, ctx.seed)
         w = Walker(ctx, g, ad, 'replay.closure.%s' % c.name)
-        ne = w.cover_edges()
+        ne = w.cover_edges(stutter=True)
         npaths, complete = w.all_paths(3, budget=200000 if thorough else 25000)
         nr = w.random_walks(2000 if thorough else 40, 10, ctx.seed)
         ctx.stage('replay.closure', concretisation=c.describe(), graph_states=len(g.state), graph_edges=g.n_edges,
